@@ -1,9 +1,11 @@
+#![allow(deprecated)]
 //! mvh — conformance harness binding the TLA+ specifications under /verif/spec
 //! to the real memvid-core crate.  Every sub-command either replays
 //! specification behaviours on the real code (spec -> impl) or records what the
 //! real code did as ND-JSON for TLC to validate (impl -> spec).  The harness
 //! contains no oracle of its own: it projects state and compares for equality
 //! with values TLC produced.
+mod core;
 mod util;
 mod walring;
 
@@ -17,6 +19,7 @@ fn main() {
     let code = match args[1].as_str() {
         "walring-replay" => walring::replay(rest),
         "walring-trace" => walring::trace(rest),
+        "core-run" => core::run(rest),
         other => {
             eprintln!("unknown subcommand {other}");
             2
